@@ -18,6 +18,17 @@ fn main() {
         .unwrap();
     match mode {
         "node" => rt.block_on(node::run()),
+        "hash" => {
+            // one hex string per line -> xxhash32 as the server computes it (keys, named consumers)
+            use std::io::{BufRead, Write};
+            let stdin = std::io::stdin();
+            for line in stdin.lock().lines() {
+                let line = line.unwrap();
+                let h = server::streaming::utils::hash::calculate_32(&util::hex_decode(line.trim()));
+                println!("{h}");
+                std::io::stdout().flush().unwrap();
+            }
+        }
         _ => {
             eprintln!("usage: verif-harness node");
             std::process::exit(2);
